@@ -14,8 +14,9 @@ PID = 'C02'
 LEVEL = 'proof'
 LEAN_TARGETS = ['Swiftness.Props.C02']
 TRANSLATOR_PARTS = ('consts', 'ast')
-DRV_LAYOUTS = ['recursive', 'dex']
-BUILDS = {'quick': [('k160', 'stone5', 'full', 'all_layouts', 'parser')], 'thorough': [('k160', 'stone5', 'full', 'all_layouts', 'parser')]}
+DRV_LAYOUTS = ['recursive', 'dex']   # model sample: static layouts
+BUILDS = {'quick': [('k160', 'stone5', 'full', 'all_layouts', 'parser'), ('b248', 'stone6', 'full', 'all_layouts', 'parser')],
+          'thorough': [('k160', 'stone5', 'full', 'all_layouts', 'parser'), ('b248', 'stone6', 'full', 'all_layouts', 'parser')]}
 RULE = ('bases: in-tree fixture + shipped recursive/dex stone5 proofs (thorough: all six static stone5 proofs). positions: every scalar in the '
         '37-token proof value (config numbers, public-input fields, commitments, oods values, FRI coefficients, nonce, decommitted cells, '
         'authentication nodes, FRI leaves). quick: a seed-dependent stride sample (~700 mutants per base) always including every config / '
@@ -34,7 +35,13 @@ def corpus(feats):
 def cases(rng, tier, feats, drv_ok):
     out = []
     layouts = ('recursive', 'dex') if tier == 'quick' else ('dex', 'recursive', 'recursive_with_poseidon', 'small', 'starknet', 'starknet_with_keccak')
-    bases = PL.base_proofs(HX, tier, layouts)
+    if fw.stone_of(feats) == 'stone6':
+        # the shipped stone6 proofs have 10 verifier-friendly layers only: their Merkle paths run through the MASKED hash (the stone5 ones
+        # are Poseidon throughout); quick: the recursive one, hash-valued positions only
+        bases = [b for b in PL.base_proofs(HX, tier, files=[(L, f'/repo/examples/proofs/{L}/cairo0_stone6_example_proof.json') for L in (layouts if tier == 'thorough' else ('recursive',))])
+                 if b.name != 'fixture']
+    else:
+        bases = PL.base_proofs(HX, tier, layouts)
     k = 0
     for b in bases:
         out.append({'line': b.line(), 'kind': 'base', 'expect': 'ok', 'name': b.name, 'pos': '-'})
@@ -50,6 +57,8 @@ def cases(rng, tier, feats, drv_ok):
             # values congruent to the original modulo a machine-word size: a truncating conversion of a count-like field would alias them
             alias = [(f'+2^{e}', (cur + (1 << e)) % lim) for e in (32, 64, 128)] + [('+7*2^33', (cur + 7 * (1 << 33)) % lim)]
             kinds = kinds + (alias if small else [rng.choice(alias)] if tier == 'thorough' else [])
+            if not small and lim == P:   # hash-valued positions: differing only above the digest width (160 / 248 bits)
+                kinds = kinds + [(f'+2^{e}', (cur + (1 << e)) % lim) for e in ((160, 248) if tier == 'thorough' or fw.stone_of(feats) == 'stone6' else (rng.choice((160, 248)),))]
             for kn, val in kinds:
                 if val == cur: continue
                 k += 1
